@@ -105,6 +105,18 @@ INFO = {
                      "duplicate forgotten: one descriptor leaks per connection and the peer never sees the close", ["C18", "C04"]),
     "C03-3": ("C03", "a connected Udp resource whose peer went away (ICMP bounce leaves ECONNREFUSED pending) and came back: "
                      "the pending error is turned into Disconnected and the resource is deregistered", ["C03"]),
+    "C05-3": ("C05", "the callback mutex replaced by a hand-made turn lock whose wait is bounded by the sampling period "
+                     "(50 ms) and whose timeout result is ignored: a callback longer than 50 ms is overlapped by the other thread", ["C05"]),
+    "C06-3": ("C06", "the timer sequence counter incremented with a separate load and store: two threads calling "
+                     "send_with_timer at the same instant get the same (Instant, sequence) key", ["C06", "C08"]),
+    "C09-3": ("C09", "for_each (sync): the is_running() test moved in front of the replay loop: stop() inside the callback of "
+                     "a replayed cached event does not stop the replay of the remaining cached events", ["C09"]),
+    "C12-3": ("C12", "a connected Udp socket with a pending ICMP error (an earlier send bounced off an absent peer): the "
+                     "kernel refuses the next datagram, send() answers Sent anyway: the datagram is lost", ["C12", "C13"]),
+    "C14-3": ("C14", "Connected(endpoint, false) is emitted before the failed resource is deregistered: inside that callback "
+                     "send() answers ResourceNotAvailable, is_ready() Some(false), remove() true", ["C14", "C03", "C04"]),
+    "C15-3": ("C15", "for_each_async/enqueue: one cached event is replayed per loop iteration, each followed by a live poll: "
+                     "fresh events overtake the cached ones still waiting", ["C15", "C03"]),
     "C19-1": ("C19", "SocketAddrV6 with non-zero flowinfo/scope_id converted to RemoteAddr: the fields are dropped", ["C19"]),
 }
 
